@@ -179,6 +179,7 @@ def parseBlock : Nat → Nat → List Line → Option (List PyStmt × List Line)
         let (ss, rest2) ← parseBlock fuel ind rest1
         some (s :: ss, rest2)
       else none
+termination_by structural fuel => fuel
 /-- `else:` + block, if present at this indentation -/
 def parseElse : Nat → Nat → List Line → Option (List PyStmt × List Line)
   | 0, _, _ => none
@@ -186,6 +187,7 @@ def parseElse : Nat → Nat → List Line → Option (List PyStmt × List Line)
       if i = ind then parseBlock fuel (ind + 1) rest
       else some ([], ⟨i, [.name ['e', 'l', 's', 'e'], .op [':']]⟩ :: rest)
   | _ + 1, _, lines => some ([], lines)
+termination_by structural fuel => fuel
 /-- `finally:` + block, if present at this indentation -/
 def parseFinally : Nat → Nat → List Line → Option (List PyStmt × List Line)
   | 0, _, _ => none
@@ -193,6 +195,7 @@ def parseFinally : Nat → Nat → List Line → Option (List PyStmt × List Lin
       if i = ind then parseBlock fuel (ind + 1) rest
       else some ([], ⟨i, [.name ['f', 'i', 'n', 'a', 'l', 'l', 'y'], .op [':']]⟩ :: rest)
   | _ + 1, _, lines => some ([], lines)
+termination_by structural fuel => fuel
 /-- `except [type]:` clauses at this indentation -/
 def parseHandlers : Nat → Nat → List Line → Option (List PyStmt × List Line)
   | 0, _, _ => none
@@ -208,6 +211,7 @@ def parseHandlers : Nat → Nat → List Line → Option (List PyStmt × List Li
         some (.handler tp none body :: hs, rest2)
       else some ([], ⟨i, .name ['e', 'x', 'c', 'e', 'p', 't'] :: ts⟩ :: rest)
   | _ + 1, _, lines => some ([], lines)
+termination_by structural fuel => fuel
 /-- one statement starting at the first line -/
 def parseStmt : Nat → Nat → List Line → Option (PyStmt × List Line)
   | 0, _, _ => none
@@ -258,6 +262,7 @@ def parseStmt : Nat → Nat → List Line → Option (PyStmt × List Line)
       | .name ['d', 'e', 'f'] :: _ => defOrClass fuel ind [] toks rest
       | .name ['c', 'l', 'a', 's', 's'] :: _ => defOrClass fuel ind [] toks rest
       | _ => (simpleP toks).map fun s => (s, rest)
+termination_by structural fuel => fuel
 /-- `def name(params) [-> ret]:` / `class name[(args)]:` with the decorators already read -/
 def defOrClass : Nat → Nat → List PyExpr → List Tok → List Line → Option (PyStmt × List Line)
   | 0, _, _, _, _ => none
@@ -289,6 +294,7 @@ def defOrClass : Nat → Nat → List PyExpr → List Tok → List Line → Opti
             some (.classDef c (args.filter (fun x => !isKw x)) (args.filter isKw) body decos false, rest1)
           else none
       | _ => none
+termination_by structural fuel => fuel
 end
 
 def stmtFuel (lines : List Line) : Nat := 8 * lines.length + 8
